@@ -143,8 +143,8 @@ impl Selection {
         self.pre_selected_watermark = max(self.pre_selected_watermark, self.items.len());
 
         let height = self.known_height();
-        if self.items.len() <= self.line_cursor {
-            // if not enough items, move cursor down
+        if self.items.len() <= self.line_cursor || height <= self.line_cursor {
+            // if not enough items (or the window shrank), move cursor down
             self.line_cursor = max(min(self.items.len(), height), 1) - 1;
         }
 
